@@ -124,6 +124,17 @@ CHECKS = {
             "are sampled on both sides of zmax, and CC F2/F3_charm/bottom rows are zero iff chi >= 1 with the LO row in the direction "
             "p_j(chi) for the chi the spec computes.",
             "Trusted: TLC, numpy, eko basis functions, math.nextafter.", "DESIGN.md 7/C09"),
+    "C10": ("model_checking",
+            "TLC theorems on TMC.tla (published exact / APFEL / approximate formulas as exact rational prefactors on a rational-rho "
+            "lattice) + term operators rebuilt from a TMC=0 run with an independent quadrature and combined with TLC's prefactors, "
+            "compared with the real TMC runs + TLC trace validation",
+            "TLC proves the M -> 0 limit, APFEL = exact without g2, F_L = rho^2 F_2 - 2xF_1 on the integral weights and xi < x; for "
+            "every kind (F2, FL, xF3) x mode x lattice point the bare operators at xi and at every node come from a TMC=0 run, h2/g2/h3 "
+            "are integrals of the interpolant computed by an own quadrature, TLC's exact prefactors (ln xi as an atom) combine them, and "
+            "the real TMC operators must agree for every order key (2e-7); the same request is first run on another grid in the same "
+            "process; continuity at M -> 0 (incl. M = 0 exactly) and rejection of requests whose xi leaves the grid are replayed.",
+            "Trusted: TLC, scipy.quad, eko basis functions. g1: only continuity, rejection and (via C14/C16) that its integrals run over "
+            "g1 are checked - the normalisation convention of the reference could not be settled from the repository.", "DESIGN.md 7/C10"),
 }
 
 PENDING = {}
